@@ -170,6 +170,18 @@ def _equality(w, e, s, l, r, positive, outs):
             b.add(("notkeys", x, ks))
             _emit(outs, None if s.contradicts(("keys", x, ks)) else a, b, positive)
             return
+    # d.keys() == {"a", "b"}: a dict view equals a set iff it has exactly these keys
+    if is_call(l, "method:keys") and len(l[2]) == 1 and is_lit(r, "set"):
+        vals = lit_const_values(r)
+        if vals is not None:
+            x = l[2][0]
+            ks = frozenset(vals)
+            a.add(("keys", x, ks))
+            for kk in ks:
+                a.add(("has", x, C(kk)), ("ok", ("sub", x, C(kk))))
+            b.add(("notkeys", x, ks))
+            _emit(outs, None if s.contradicts(("keys", x, ks)) else a, b, positive)
+            return
     # sorted(d) == ["a", "b"] / list(d.keys()) == [...]
     d = keys_of(l)
     if d is not None and is_lit(r) and lit_const_values(r) is not None and r[1] in ("list", "tuple"):
